@@ -22,6 +22,7 @@ DECIDED = [
     "from dead and the Redis orphan-data branch",
     "R-C12-CLOCK: reschedule restarts the time-to-live clock, retry does not (shared with C06-RESET / C04-STEP)",
     "R-C12-CLOCK (stored): Redis requeue overwrites payload and parameters with HSET (HSETNX would keep the old clock); R-C12-RETRIEVABLE (names): dead-letter list names carry the message's priority",
+    "R-C12-CMP (clock family): every clock reading / timestamp conversion in repid belongs to one family (naive local); R-C12-CLOCK (fresh defaults): timestamps default per object",
 ]
 NOT_DECIDED = ["the instant of the test relative to the expiry on a real clock"]
 ASSUMPTIONS = ["RabbitMQ dead-letters a nacked (requeue=False) message to the queue's DLX routing key (topology checked by C05-POLL)"]
